@@ -29,6 +29,7 @@ fn main() {
         "c09drill" => c_flow::drill(&mut out, &extra),
         "c10" => c_bus::run(&mut out, seed, thorough),
         "c05" => c_mach::run_c05(&mut out, seed, thorough),
+        "c07" => c_mach::run_c07(&mut out, seed, thorough),
         "c13" => c_mach::run_c13(&mut out, seed, thorough),
         "replay" => gen::replay(&mut out, &extra),
         _ => {
